@@ -198,6 +198,11 @@ def spec_cases():
                   "yml": "- [a, 1e-3]\n- [b, 1E5, {min: 1e2, max: 2.5e+6}]\n- [c, -4.2e-1]\n- [d, 5, {standard-error: 1e-2}]\n",
                   "spec": [["a", 1e-3], ["b", 1e5, {"min": 1e2, "max": 2.5e6}], ["c", -0.42], ["d", 5, {"standard-error": 1e-2}]],
                   "twin": [param_spec("a", 1e-3), param_spec("b", 1e5, (1e2, 2.5e6)), param_spec("c", -0.42), param_spec("d", 5.0, stderr=1e-2)]})  # fmt: skip
+    # every spelling of a number in scientific notation that the documented pattern accepts, as quoted strings
+    sci = [("5e-3", 5e-3), (".5e3", 500.0), ("-.25E-2", -0.0025), ("+1E2", 100.0), ("1.5e+2", 150.0), ("007e1", 70.0), ("-4.2e-4", -4.2e-4)]
+    cases.append({"name": "scientific-string-spellings",
+                  "spec": [[f"s{i}", txt] for i, (txt, _) in enumerate(sci)],
+                  "twin": [param_spec(f"s{i}", val) for i, (_, val) in enumerate(sci)]})
     cases.append({"name": "defaults-then-own-options-then-more",
                   "spec": {"rates": [["k1", 1.0], ["k2", 2.0, {"min": 0.1, "max": 2.0, "vary": False}], ["k3", 3.0], 4.0, {"non-negative": True}]},
                   "twin": [param_spec("rates.k1", 1.0, nonneg=True), param_spec("rates.k2", 2.0, (0.1, 2.0), vary=False, nonneg=True),
